@@ -14,7 +14,7 @@ CONSTANTS
   RecheckUnderLock = TRUE
   GuardedConn = TRUE
   PerCycleWG = TRUE
-  SubscribeMayFail = FALSE
+  SubscribeMayFail = TRUE
   Script <- MCScript
 VIEW view
 INVARIANTS MutualExclusion FifoPrefix AtMostOnce ExactlyOnce NoPanic AfterShutdown NoLateStart Accounted
